@@ -533,14 +533,16 @@ func (d *dhcpRun) restartProbe(s *packet.Session, rec *mon.Recorder, file string
 			return
 		}
 	}
+	rx := newRx()
 	send := func(cl *dclient, q refdec.DHCPMsg, src netip.Addr) []refdec.DHCPMsg {
 		m.Request(q, src, s.IsCaptured(net.HardwareAddr(cl.mac[:])))
-		fb := dhcpFrame(cl.mac, src, netip.MustParseAddr("255.255.255.255"), q, 68, 67, bcastMAC)
+		fb := rx.load(dhcpFrame(cl.mac, src, netip.MustParseAddr("255.255.255.255"), q, 68, 67, bcastMAC))
 		frame, err := s.Parse(fb)
 		if err != nil {
 			panic("HARNESS BUG: " + err.Error())
 		}
 		h2.ProcessPacket(frame)
+		rx.scribble()
 		synctest.Wait()
 		var out []refdec.DHCPMsg
 		for _, f := range rec.Take() {
